@@ -1145,13 +1145,21 @@ func c16AllHelperNames() []string {
 	return out
 }
 
-// the line(s) a helper produced: by token, or for the token-less ones by exact line
-func c16HelperMatch(name, tok string) func(line string) bool {
+func c16BareLine(name string) string {
 	switch name {
 	case "Back", "Away/empty":
-		return func(l string) bool { return l == "AWAY" }
+		return "AWAY"
 	case "List/all":
-		return func(l string) bool { return l == "LIST" }
+		return "LIST"
+	}
+	return ""
+}
+
+// the line(s) a helper produced: by token, or for the token-less ones by exact line (never
+// two senders of the same bare line in one batch, and a batch is over before the next starts)
+func c16HelperMatch(name, tok string) func(line string) bool {
+	if b := c16BareLine(name); b != "" {
+		return func(l string) bool { return l == b }
 	}
 	return func(l string) bool { return strings.Contains(l, tok) }
 }
@@ -1193,7 +1201,14 @@ func c16RunHelpers(gf, af bool, names []string) (obs, oracle string) {
 	var bounds [][2]int
 	for lo := 0; lo < len(names); {
 		hi := lo
+		bare := map[string]bool{} // AWAY / LIST: at most one sender of each bare line per batch
 		for hi < len(names) && hi-lo < 9 && (names[hi] != "Client.Quit" || hi == lo) {
+			if b := c16BareLine(names[hi]); b != "" {
+				if bare[b] {
+					break
+				}
+				bare[b] = true
+			}
 			hi++
 			if names[hi-1] == "Client.Quit" {
 				break
